@@ -332,13 +332,15 @@ type rstate struct {
 	grewBy           int64
 	ltN              map[rcls]bool // classes of values known to be < n (the entry value, n not yet changed)
 	geZ              map[rcls]bool // classes of values known to be ≥ 0
+	zeroC            map[rcls]bool // classes known to be ≡ 0 (mod L): a value of class c was found equal to k ⇒ c − k
+	paramArg         map[ssa.Value]ssa.Value // helper parameter → the caller's argument (refinements flow back)
 	ret              rival
 	retC             rcls
 	hasRet           bool
 }
 
 func newRState(lzero bool) *rstate {
-	s := &rstate{env: map[ssa.Value]rival{}, cls: map[ssa.Value]rcls{}, fieldOf: map[ssa.Value]*types.Var{}, loadVer: map[ssa.Value]int{}, ub: map[ssa.Value]ssa.Value{}, lzero: lzero, ltN: map[rcls]bool{}, geZ: map[rcls]bool{}}
+	s := &rstate{env: map[ssa.Value]rival{}, cls: map[ssa.Value]rcls{}, fieldOf: map[ssa.Value]*types.Var{}, loadVer: map[ssa.Value]int{}, ub: map[ssa.Value]ssa.Value{}, lzero: lzero, ltN: map[rcls]bool{}, geZ: map[rcls]bool{}, zeroC: map[rcls]bool{}, paramArg: map[ssa.Value]ssa.Value{}}
 	if lzero {
 		s.head, s.n = rexact(rconst(0)), rexact(rconst(0))
 	} else {
@@ -378,6 +380,14 @@ func (s *rstate) clone() *rstate {
 	n.geZ = make(map[rcls]bool, len(s.geZ))
 	for k, v := range s.geZ {
 		n.geZ[k] = v
+	}
+	n.zeroC = make(map[rcls]bool, len(s.zeroC))
+	for k, v := range s.zeroC {
+		n.zeroC[k] = v
+	}
+	n.paramArg = make(map[ssa.Value]ssa.Value, len(s.paramArg))
+	for k, v := range s.paramArg {
+		n.paramArg[k] = v
 	}
 	return &n
 }
@@ -563,7 +573,18 @@ func (ra *ringAbs) clsEq(s *rstate, a, b rcls) bool {
 			d.k, d.rc, d.r = d.k+d.rc*b, 0, nil
 		}
 	}
-	return d.h == 0 && d.n == 0 && d.rc == 0 && d.k == 0
+	if d.h == 0 && d.n == 0 && d.rc == 0 && d.k == 0 {
+		return true
+	}
+	// a ≡ b follows from a class known to be ≡ 0 on this path
+	for z := range s.zeroC {
+		for _, m := range []int64{1, -1} {
+			if e := d.add(z, -m); e.ok && e.h == 0 && e.n == 0 && e.rc == 0 && e.k == 0 {
+				return true
+			}
+		}
+	}
+	return false
 }
 
 func isIntVal(v ssa.Value) bool {
@@ -712,6 +733,18 @@ func (ra *ringAbs) setRefined(s *rstate, v ssa.Value, iv rival, d int) {
 		iv = ctx.meet(old, iv)
 	}
 	s.env[v] = iv
+	if niv := ctx.normIv(iv); niv.lo.inf == 0 && niv.hi.inf == 0 && niv.lo == niv.hi && niv.lo.a == 0 {
+		// v = k exactly: its class is ≡ k
+		if cv := ra.clsOf(s, v, 0); cv.ok && (cv.h != 0 || cv.n != 0 || cv.rc != 0) {
+			z := cv.add(clsConst(niv.lo.b), -1)
+			if z.ok && s.zeroC != nil {
+				s.zeroC[z] = true
+			}
+		}
+	}
+	if a, ok := s.paramArg[v]; ok && a != v {
+		ra.setRefined(s, a, iv, d+1)
+	}
 	if f := s.fieldOf[v]; f != nil {
 		isHead := sameField(f, ra.m.headF)
 		if s.loadVer[v] == 0 {
@@ -1080,10 +1113,15 @@ func (ra *ringAbs) fixpoint(fn *ssa.Function, qv ssa.Value, entry *rstate, check
 			}
 			states = next
 		}
+		// several states (a helper with several returns): one joined state leaves the block
+		var joined *rstate
 		for _, st := range states {
 			if !st.unreach {
-				propagate(b, st, false)
+				joined, _ = ra.joinState(joined, st, false, b)
 			}
+		}
+		if joined != nil {
+			propagate(b, joined, false)
 		}
 	}
 	ra.silent = wasSilent
@@ -1107,10 +1145,14 @@ func (ra *ringAbs) fixpoint(fn *ssa.Function, qv ssa.Value, entry *rstate, check
 			}
 			states = next
 		}
+		var joined *rstate
 		for _, st := range states {
 			if !st.unreach {
-				propagate(b, st, true)
+				joined, _ = ra.joinState(joined, st, false, b)
 			}
+		}
+		if joined != nil {
+			propagate(b, joined, true)
 		}
 	}
 	var exit *rstate
@@ -1238,6 +1280,11 @@ func (ra *ringAbs) joinState(a, b *rstate, widen bool, at *ssa.BasicBlock) (*rst
 	for k := range r.ltN {
 		if !b.ltN[k] {
 			delete(r.ltN, k)
+		}
+	}
+	for k := range r.zeroC {
+		if !b.zeroC[k] {
+			delete(r.zeroC, k)
 		}
 	}
 	for k := range r.geZ {
@@ -1589,6 +1636,7 @@ func (ra *ringAbs) step(fn *ssa.Function, qv ssa.Value, s *rstate, ins ssa.Instr
 		for i, p := range cal.Params {
 			if i < len(x.Call.Args) && isIntVal(p) {
 				sub.env[p], sub.cls[p] = ra.valOf(s, x.Call.Args[i]), ra.clsOf(s, x.Call.Args[i], 0)
+				sub.paramArg[p] = x.Call.Args[i]
 			}
 			if i < len(x.Call.Args) && isBoolVal(p) {
 				if bv := ra.valOf(s, x.Call.Args[i]); bv != rTop {
